@@ -115,11 +115,13 @@ P["C07"] = ("proof", "C07_parses: for every renderable marker (non-empty compoun
             "identically in every environment; C07_specials: <empty> / '' are the renderings of the empty / universal marker, are special-cased by the parser, and <empty> never occurs inside a larger rendering. Lexeme level: lexing itself is packaging's. "
             "Ties: S-mstr (lexed str(m) vs model; model's parser vs packaging's tree), S-mark; direct oracle re-parses with parse_marker and packaging's Marker and compares truth tables.",
             TB_MARKER + "; Model/MarkerStr.v hand-written, tied by the S-mstr stream; lexing is packaging's", "machine-checked proof in Coq over hand models + correspondence + differential oracle", "5")
-P["C15"] = ("proof", "PARTIAL. Proved over Model/Marker.v (every fuel, set order, merge oracle, every input list): C15_multi_of / C15_union_of - MultiMarker.of / MarkerUnion.of return the absorbing marker, the neutral marker, the single marker left "
-            "(singleton unwrapped) or a compound built from at least two pairwise distinct, non-absorbing processed markers, with pairwise distinct children; C15_one_child_refuted reproduces the recorded finding on the model. NOT proved: no neutral / "
-            "same-kind child for arbitrary inputs, union()'s raw candidate, union_simplify / intersect_simplify (where the property is violated on the unchanged tree: known finding). Those are decided by the normal-form checker of the direct oracle "
-            "(every result of parse/&/|/only/exclude, call-site attribution) and by the S-mark correspondence, which compares result SHAPES with the model.",
-            TB_MARKER, "machine-checked proof in Coq (shape of of() results) + structural correspondence + normal-form oracle", "5")
+P["C15"] = ("proof", "PARTIAL. Proved over Model/Marker.v for every fuel, set order and merge oracle returning atoms: C15_reachable (with C15_and, C15_or, C15_multi_of_wf, C15_union_of_wf, C15_only, C15_exclude) - every marker reachable from atoms, "
+            "the universal and the empty marker through &, |, MultiMarker.of / MarkerUnion.of (what parse_marker folds with), only() and exclude()/without_extras() is well shaped at EVERY depth: the children of each conjunction / disjunction are pairwise "
+            "distinct and none of them is a compound of the same kind (invariant carried through all nine mutually recursive functions of the normaliser, the of() loops and flatten_items: Proofs/MarkerInv.v). C15_multi_of / C15_union_of - "
+            "MultiMarker.of / MarkerUnion.of return the absorbing marker, the neutral marker, the single marker left (singleton unwrapped) or a compound built from at least two pairwise distinct, non-absorbing processed markers; C15_one_child_refuted "
+            "reproduces the recorded finding on the model. NOT proved: no universal/empty child, and at least two children on the paths that do not end in of() (union()'s raw candidate, union_simplify / intersect_simplify - where the property is violated "
+            "on the unchanged tree: known finding). Those are decided by the normal-form checker of the direct oracle (every result of parse/&/|/only/exclude, call-site attribution) and by the S-mark correspondence, which compares result SHAPES with the model.",
+            TB_MARKER, "machine-checked proof in Coq (hereditary shape invariant of all reachable markers; shape of of() results) + structural correspondence + normal-form oracle", "5")
 P["C10"] = ("proof", "PARTIAL (meaning, not text). C10_reach_sound: every callee family reachable by cold computation, further normaliser steps and cache hits of cnf/dnf with a ==-equal argument is meaning preserving (step_sound: one step of the "
             "normaliser is sound for ANY sound callees; == is a congruence for evaluation and well-formedness); C10_meaning / C10_history_independent: a & b and a | b computed under ANY history mean the conjunction / disjunction of their operands, so a warm "
             "and a cold run agree in every environment. NOT proved, and false on the unchanged tree (known finding value-order-text-only): history independence of the rendered text - decided by the direct oracle, which compares text and truth table of "
